@@ -1,0 +1,21 @@
+//go:build verif
+
+package workercmd
+
+import (
+	"net/http"
+	"time"
+
+	"github.com/sassoftware/relic/v8/token"
+	"github.com/sassoftware/relic/v8/token/tokencache"
+)
+
+// NewVerifHandler returns the worker's real RPC handler around the given
+// token. Verification hook only.
+func NewVerifHandler(tok token.Token, expiry time.Duration, cookie string, shutdown func()) http.Handler {
+	return &handler{
+		token:    tokencache.New(tok, expiry),
+		cookie:   []byte(cookie),
+		shutdown: shutdown,
+	}
+}
